@@ -336,8 +336,8 @@ Fixpoint row_at (t : tcolumns) (i : nat) : row :=
 Definition rows_of (db meas : bytes) (t : tcolumns) : list srow :=
   map (fun i => {| r_dir := (db, meas); r_cells := row_at t i |}) (seq 0 (num_rows t)).
 
-(* getColumnSignature of the typed batch: name and type of every non-empty column whose name
-   does not start with '_' (a buffer whose signature differs from the incoming batch's is
+(* bufferSchemaKey of the typed batch (code after commit 5cfca39): name and type of EVERY non-empty
+   column, '_'-prefixed ones included (a buffer whose key differs from the incoming batch's is
    flushed first: flushOnSchemaChangeLocked) *)
 Definition kind_eqb (a b : kind) : bool :=
   match a, b with
@@ -352,13 +352,11 @@ Fixpoint sig_of (cols : columns) : signature :=
   | [] => []
   | (n, []) :: r => sig_of r
   | (n, col) :: r =>
-      if stored_name n && nonempty_name n then
-        (n, if bytes_eqb n k_time then KInt
-            else match first_non_nil col with
-                 | None => KStr
-                 | Some fv => match kind_of fv with Some k => k | None => KNull end
-                 end) :: sig_of r
-      else sig_of r
+      (n, if bytes_eqb n k_time then KInt
+          else match first_non_nil col with
+               | None => KStr
+               | Some fv => match kind_of fv with Some k => k | None => KNull end
+               end) :: sig_of r
   end.
 
 Definition sig_mem (x : bytes * kind) (l : signature) : bool :=
@@ -1072,18 +1070,53 @@ Fixpoint rec_measurements (v : variant) (r : mrec) : list bytes :=
   | MNest l => flat_map (rec_measurements v) l
   end.
 
-(* ArrowBuffer.rowsToColumnar for the rows of one measurement *)
-Definition row_rec_cells (alltags : list bytes) (r : mrec) : rowmap :=
+(* ArrowBuffer.rowsToColumnar for the rows of one measurement (code after commit ac0d5a8: every
+   field gets a column of its own - a field whose name is taken by a tag, by "time", by an earlier
+   rename or, once renamed, by another field gets "_value" appended until the name is free; fields
+   are visited in bytewise sorted order) *)
+Fixpoint bytes_ltb (a b : bytes) : bool :=
+  match a, b with
+  | [], [] => false
+  | [], _ :: _ => true
+  | _ :: _, [] => false
+  | x :: a', y :: b' => if N.ltb x y then true else if N.eqb x y then bytes_ltb a' b' else false
+  end.
+
+Fixpoint insert_sorted (x : bytes) (l : list bytes) : list bytes :=
+  match l with
+  | [] => [x]
+  | y :: r => if bytes_ltb y x then y :: insert_sorted x r else x :: l
+  end.
+Definition sort_bytes (l : list bytes) : list bytes := fold_right insert_sorted [] l.
+
+Fixpoint pick_name (fuel : nat) (alltags allfields taken : list bytes) (field name : bytes) : bytes :=
+  match fuel with
+  | O => name
+  | S f => if memb name alltags || memb name taken || (negb (bytes_eqb name field) && memb name allfields)
+           then pick_name f alltags allfields taken field (name ++ k_value) else name
+  end.
+
+Fixpoint assign_fields (alltags allfields : list bytes) (fs taken : list bytes) : list (bytes * bytes) :=
+  match fs with
+  | [] => []
+  | f :: r =>
+      let n := pick_name (2 + List.length alltags + 2 * List.length allfields) alltags allfields taken f f in
+      (f, n) :: assign_fields alltags allfields r (n :: taken)
+  end.
+
+Definition row_rec_cells (fieldcol : list (bytes * bytes)) (r : mrec) : rowmap :=
   match r with
   | MRow _ ts tags fields =>
       let c1 := [(k_time, GInt ts)] in
       let c2 := fold_left (fun a kv => setb (fst kv) (GStr (snd kv)) a) tags c1 in
-      fold_left (fun a kv => setb (if memb (fst kv) alltags then fst kv ++ k_value else fst kv) (snd kv) a) fields c2
+      fold_left (fun a kv => setb (match lookupb (fst kv) fieldcol with Some n => n | None => fst kv end) (snd kv) a) fields c2
   | _ => []
   end.
 
 Definition row_tag_names (rs : list mrec) : list bytes :=
   dedup (flat_map (fun r => match r with MRow _ _ tags _ => map fst tags | _ => [] end) rs) [].
+Definition row_field_names (rs : list mrec) : list bytes :=
+  dedup (flat_map (fun r => match r with MRow _ _ _ fields => map fst fields | _ => [] end) rs) [].
 
 Definition is_row_of (m : bytes) (r : mrec) : bool :=
   match r with MRow m' _ _ _ => bytes_eqb m m' | _ => false end.
@@ -1092,12 +1125,11 @@ Definition rows_to_columnar (m : bytes) (rs : list mrec) : columns :=
   let mine := filter (is_row_of m) rs in
   (* the time column is created first; every tag column, then every field column *)
   let alltags := row_tag_names mine in
-  let cells := map (row_rec_cells alltags) mine in
-  let fieldnames := dedup (flat_map (fun r => match r with
-                       | MRow _ _ _ fields => map (fun kv => if memb (fst kv) alltags then fst kv ++ k_value else fst kv) fields
-                       | _ => [] end) mine) [] in
+  let allfields := row_field_names mine in
+  let fieldcol := assign_fields alltags allfields (sort_bytes allfields) [k_time] in
+  let cells := map (row_rec_cells fieldcol) mine in
   map (fun k => (k, map (fun rc => match lookupb k rc with Some x => x | None => GNil end) cells))
-      (k_time :: dedup (alltags ++ fieldnames) []).
+      (k_time :: dedup (alltags ++ map snd fieldcol) []).
 
 (* ArrowBuffer.Write: columnar records at once, row records grouped and written afterwards;
    None at a position = the nested-list element Write refuses *)
